@@ -126,7 +126,7 @@ def scenario(tier):
 
 
 def long_history(tier):
-    ROOT = "A001[C002]"  # a folder name with glob metacharacters
+    ROOT = "A001[C002] Übung 日"  # a folder name with glob metacharacters and multi-byte characters
 
     def fn(b, sym):
         b.mkfile(ROOT + "/clip.mov", 1)
@@ -192,9 +192,9 @@ def harnesses(tier):
                             "modes": "folder | -sf root file | -sf deep file"},
                     outside=["generation numbers between 13 and 9997 and above 100002 (c06-long / c06-five-digits cover 1-14 and the 9999 -> 10000 boundary)"]),
             Harness("c06-long", long_history(tier), frontier=3, budget_s=1200,
-                    what="10-12 (thorough -14) consecutive create / create -sf runs in a folder named 'A001[C002]' (flat or with a nested history, "
+                    what="10-12 (thorough -14) consecutive create / create -sf runs in a folder named 'A001[C002] Übung 日' (flat or with a nested history, "
                          "same or different clock second): two-digit generation numbers, chain order, names",
-                    bounds={"runs": "10-12 / 10-14", "root folder name": "A001[C002]"}, outside=[]),
+                    bounds={"runs": "10-12 / 10-14", "root folder name": "A001[C002] Übung 日"}, outside=[]),
             Harness("c06-five-digits", five_digits, frontier=2, budget_s=600,
                     what="a history whose highest generation is 9998 / 9999 / 10000 / 99999 (reached by renumbering a committed generation): three "
                          "more runs are numbered max+1, chained, and reload in numeric order",
